@@ -2,13 +2,13 @@
 NOT_YET = {}
 CLAIMS["C02"] = (
     "Lean 4 proof by loop invariant (Bellman equations for the full start set under delayed pruning) + exact model/code correspondence on integer table costs",
-    "Theorems pelt_optimal / pelt_prefix_optimal (Skc/Props/C02.lean): for every ordered additive group, cost table satisfying the split inequality, penalty, m >= 1, n >= 2m and the whole policy family (any minimiser selector, any sound pruning test, any pruning delay >= m-1) the model of run_pelt + get_changepoints returns an admissible segmentation of minimal penalised cost, every prefix score is the prefix optimum, the final score is the cost of the returned segmentation. Unbounded in n; also the negative result for the pinned pruning.",
+    "Theorems pelt_optimal / pelt_prefix_optimal (Skc/Props/C02.lean): for every ordered additive group, cost table satisfying the split inequality, penalty, m >= 1, n >= 2m and the whole policy family (any minimiser selector, any sound pruning test, any pruning delay >= m-1) the model of run_pelt + get_changepoints returns an admissible segmentation of minimal penalised cost, every prefix score is the prefix optimum, the final score is the cost of the returned segmentation. Unbounded in n; also the negative result for the pinned pruning. Composed down to the data: pelt_l2_exact — with the squared-error cost table built from prefix sums (split inequality discharged by l2Table_split, entries = residual sums of squares by l2Table_eq_rss) the reported changepoints minimise the penalised residual sum of squares over all admissible segmentations, for every real series.",
     "modelled, not verified: the Python glue around run_pelt (check_data, output formatting) is exercised by the correspondence only; built-in float costs are compared under a tolerance; the correspondence is differential testing (3-60 k exact cases per run incl. model-mined pruning-boundary inputs).",
     "3/C02",
 )
 CLAIMS["C03"] = (
     "Lean 4 proof by loop invariant (point/collective Bellman inequalities against all admissible starts under delayed pruning and length-limit pruning) + top-k lemma and per-branch analysis of the penalised saving + exact model/code correspondence on integer table savings",
-    "Theorems capa_optimal_wrt_specification / capa_prefix_wrt_specification (Skc/Props/C03.lean): for p >= 1 non-negative column savings that are sub-additive under splitting, alpha >= 0, betas >= 0 (not in (0,1e-8)), 2 <= m <= M, pruning delay >= m-1, the model of run_base_capa driven by the code's three-branch penalise_savings returns an admissible anomaly set whose total saving UNDER THE SPECIFICATION (best non-empty component subset, alpha once, betas of that many components) equals the final score and is maximal; every prefix score is the prefix optimum, >= 0 and non-decreasing. Also capa_optimal / capa_prefix / capa_reported_positive for abstract penalised savings, penalise_general_best, penalise_*_H. Unbounded in n and p.",
+    "Theorems capa_optimal_wrt_specification / capa_prefix_wrt_specification (Skc/Props/C03.lean): for p >= 1 non-negative column savings that are sub-additive under splitting, alpha >= 0, betas >= 0 (not in (0,1e-8)), 2 <= m <= M, pruning delay >= m-1, the model of run_base_capa driven by the code's three-branch penalise_savings returns an admissible anomaly set whose total saving UNDER THE SPECIFICATION (best non-empty component subset, alpha once, betas of that many components) equals the final score and is maximal; every prefix score is the prefix optimum, >= 0 and non-decreasing. Also capa_optimal / capa_prefix / capa_reported_positive for abstract penalised savings, penalise_general_best, penalise_*_H. Unbounded in n and p. Composed down to the data: capa_l2_optimal_wrt_specification — for the default L2Saving on any real series with p >= 1 columns the hypotheses on the savings (non-negative, column-wise sub-additive under splitting) are theorems (l2Savings_nonneg, l2Savings_subAdd).",
     "hypotheses forced by the proof and recorded: savings >= 0, alpha >= 0, betas >= 0 and not in (0,1e-8) (the code approximates those by 0); modelled not verified: Python glue (check_data, formatting, merging and sorting of the two anomaly lists, ignore_point_anomalies filter), built-in float savings (compared under tolerance), scipy chi2 in the intermediate family; the correspondence is differential testing on tables incl. driver-mined pruning-boundary inputs.",
     "3/C03",
 )
